@@ -31,15 +31,28 @@ Proof. exact reset_state_inv. Qed.
 Print Assumptions C03_reset_state_inv.
 
 (* 2. one clock edge of the design = one ISA instruction: pc, areg, breg, oreg and the written memory word; the invariant
-   is preserved.  For the READ system call the memory effect is the testbench's (see C03_clock_refines_isa). *)
+   is preserved.  For the READ system call the memory effect is the testbench's (see C03_clock_refines_isa_partial). *)
 Theorem C03_cycle_refines_isa : forall (s : rstate) (inp : inputs) (a' : arch) (inp' : inputs) (ev : event),
   Inv s -> step (abs s) inp = Ok (a', inp', ev) -> in_range (fetch (abs s)) a' ->
   abs (cycle RtlHex.design s) = (if is_read ev then with_mem a' (r_mem s) else a') /\ Inv (cycle RtlHex.design s).
 Proof. exact cycle_refines_isa. Qed.
 Print Assumptions C03_cycle_refines_isa.
+(* The name is kept although the statement is under [Inv]: Inv (register widths, memory words < 2^32, low nibble of oreg_q
+   clear) holds in the reset state (C03_reset_state_inv) and is preserved by every clock (second conjunct above), so it
+   holds in every state a run from reset reaches -- which is what the property ("Started from reset ...") quantifies over.
+   For ALL states the statement is false (the RTL decodes a prefixed OPR by the operand nibble only): *)
+Definition C03_cycle_refines_isa_all_states : Prop :=
+  forall (s : rstate) (inp : inputs) (a' : arch) (inp' : inputs) (ev : event),
+  wf s -> step (abs s) inp = Ok (a', inp', ev) -> in_range (fetch (abs s)) a' ->
+  abs (cycle RtlHex.design s) = (if is_read ev then with_mem a' (r_mem s) else a').
+Theorem C03_cycle_refines_isa_all_states_refuted : ~ C03_cycle_refines_isa_all_states.
+Proof. exact cycle_refines_isa_all_states_refuted. Qed.
+Print Assumptions C03_cycle_refines_isa_all_states_refuted.
 
 (* 3. the system-call request: o_syscall_valid is 1 exactly when the fetched byte is 0xD3 (OPR SVC), else 0;
    o_syscall is areg[1:0], which is areg itself for the three defined calls *)
+(* (the ISA defines only the calls 0, 1, 2: for areg >= 3 Isa.step is BadSvc, outside the property's "defined meaning"; there
+   the RTL requests call areg mod 4 -- areg = 4 requests EXIT -- which the check runs and reports without judging) *)
 Theorem C03_syscall_request : forall s : rstate, wf s ->
   let o := outs RtlHex.design s in
   (getv "o_syscall_valid" o 0 = 1 <-> fetch (abs s) = 211) /\
@@ -55,28 +68,48 @@ Print Assumptions C03_syscall_request.
    KNOWN FINDING, see known_findings.json (C03, kind read-overwrites-own-svc): that shape lies inside the property's
    literal quantifier and there the RTL with the shim and the ISA differ -- the shim writes before the clock edge that
    retires the SVC, so the RTL retires the overwritten byte.  tools/c03.py exhibits it on every run. *)
-Theorem C03_clock_refines_isa : forall (s : rstate) (inp : inputs) (a' : arch) (inp' : inputs) (ev : event),
+Theorem C03_clock_refines_isa_partial : forall (s : rstate) (inp : inputs) (a' : arch) (inp' : inputs) (ev : event),
   Inv s -> step (abs s) inp = Ok (a', inp', ev) -> in_range (fetch (abs s)) a' -> read_safe (abs s) a' ev ->
   exists s', tb_step RtlHex.design s inp = (s', inp', ev) /\ abs s' = a' /\ Inv s'.
 Proof. exact clock_refines_isa. Qed.
-Print Assumptions C03_clock_refines_isa.
+Print Assumptions C03_clock_refines_isa_partial.
+(* _partial: what is missing is exactly the read_safe hypothesis.  The full statement is false (known finding): *)
+Definition C03_clock_refines_isa_full : Prop :=
+  forall (s : rstate) (inp : inputs) (a' : arch) (inp' : inputs) (ev : event),
+  Inv s -> step (abs s) inp = Ok (a', inp', ev) -> in_range (fetch (abs s)) a' ->
+  exists s', tb_step RtlHex.design s inp = (s', inp', ev) /\ abs s' = a'.
+Theorem C03_clock_refines_isa_full_refuted : ~ C03_clock_refines_isa_full.
+Proof. exact clock_refines_isa_full_refuted. Qed.
+Print Assumptions C03_clock_refines_isa_full_refuted.
 
 (* 4. exactly one instruction retires per clock: over n clocks the bytes the design fetches and retires are, clock by
    clock, the n instruction bytes the ISA executes *)
-Theorem C03_one_instruction_per_clock : forall (n : nat) (s : rstate) (inp : inputs) (a : arch) (inp' : inputs) (evs : list event) (bs : list Z),
+Theorem C03_one_instruction_per_clock_partial : forall (n : nat) (s : rstate) (inp : inputs) (a : arch) (inp' : inputs) (evs : list event) (bs : list Z),
   Inv s -> isa_run n (abs s) inp = Some (a, inp', evs, bs) -> run_ok n (abs s) inp ->
   exists s' evs', tb_run RtlHex.design n s inp = (s', inp', evs', bs) /\ List.length bs = n.
 Proof. exact one_instruction_per_clock. Qed.
-Print Assumptions C03_one_instruction_per_clock.
+Print Assumptions C03_one_instruction_per_clock_partial.
 
 (* 5. whole runs from reset on the same memory image and the same input: after n clocks the design's registers and
    memory are the ISA's after n instructions, with the same events and the same remaining input *)
-Theorem C03_run_refines_isa : forall (n : nat) (ws : list Z) (inp : inputs) (a : arch) (inp' : inputs) (evs : list event) (bs : list Z),
+Theorem C03_run_refines_isa_partial : forall (n : nat) (ws : list Z) (inp : inputs) (a : arch) (inp' : inputs) (evs : list event) (bs : list Z),
   Forall (fun w => 0 <= w < 4294967296) ws ->
   isa_run n (boot ws) inp = Some (a, inp', evs, bs) -> run_ok n (boot ws) inp ->
   exists s', tb_run RtlHex.design n (reset_state (load_words WMap.zero 0 ws)) inp = (s', inp', evs, bs) /\ abs s' = a.
 Proof. exact run_refines_isa. Qed.
-Print Assumptions C03_run_refines_isa.
+Print Assumptions C03_run_refines_isa_partial.
+(* _partial (theorems 4 and 5): run_ok contains read_safe for every READ of the run; the full statements ask for the
+   property's range only.  They fail on runs that contain the known-finding shape (C03_clock_refines_isa_full_refuted is
+   their one-clock instance). *)
+Definition C03_run_refines_isa_full : Prop :=
+  forall (n : nat) (ws : list Z) (inp : inputs) (a : arch) (inp' : inputs) (evs : list event) (bs : list Z),
+  Forall (fun w => 0 <= w < 4294967296) ws ->
+  isa_run n (boot ws) inp = Some (a, inp', evs, bs) -> run_in_range n (boot ws) inp ->
+  exists s', tb_run RtlHex.design n (reset_state (load_words WMap.zero 0 ws)) inp = (s', inp', evs, bs) /\ abs s' = a.
+Definition C03_one_instruction_per_clock_full : Prop :=
+  forall (n : nat) (s : rstate) (inp : inputs) (a : arch) (inp' : inputs) (evs : list event) (bs : list Z),
+  Inv s -> isa_run n (abs s) inp = Some (a, inp', evs, bs) -> run_in_range n (abs s) inp ->
+  exists s' evs', tb_run RtlHex.design n s inp = (s', inp', evs', bs) /\ List.length bs = n.
 
 (* ------------------------------------------------------------------ non-vacuity: a program for which every hypothesis
    holds, run on the ISA and on the generated design.  LDAC 5; LDBC 3; ADD; STAM 2 *)
